@@ -57,7 +57,8 @@ fn fwd(op: &Op, _ctx: &dyn Context, operands: &mut dyn CoordinateSet) -> usize {
     let B = (1_f64 + c.powi(4) * ellps.second_eccentricity_squared()).sqrt();
     let A = ellps.semimajor_axis() * B * kc * (1_f64 - es).sqrt() / (1.0 - es * s * s);
     let t0 = (FRAC_PI_4 - latc / 2.0).tan() / ((1.0 - e * s) / (1.0 + e * s)).powf(e / 2.0);
-    let D = B * (1.0 - es).sqrt() / (c * (1.0 - es * s * s).sqrt());
+    // (D is at least 1, but may round to slightly less for a centre on the equator)
+    let D = (B * (1.0 - es).sqrt() / (c * (1.0 - es * s * s).sqrt())).max(1.0);
     let DD = if D < 1.0 { 0.0 } else { (D * D - 1.0).sqrt() };
     let F = D + DD * latc.signum();
     let H = F * t0.powf(B);
@@ -165,7 +166,8 @@ fn inv(op: &Op, _ctx: &dyn Context, operands: &mut dyn CoordinateSet) -> usize {
     let B = (1_f64 + c.powi(4) * ellps.second_eccentricity_squared()).sqrt();
     let A = ellps.semimajor_axis() * B * kc * (1_f64 - es).sqrt() / (1.0 - es * s * s);
     let t0 = (FRAC_PI_4 - latc / 2.0).tan() / ((1.0 - e * s) / (1.0 + e * s)).powf(e / 2.0);
-    let D = B * (1.0 - es).sqrt() / (c * (1.0 - es * s * s).sqrt());
+    // (D is at least 1, but may round to slightly less for a centre on the equator)
+    let D = (B * (1.0 - es).sqrt() / (c * (1.0 - es * s * s).sqrt())).max(1.0);
     let DD = if D < 1.0 { 0.0 } else { (D * D - 1.0).sqrt() };
     let F = D + DD * latc.signum();
     let H = F * t0.powf(B);
